@@ -54,6 +54,12 @@ Theorem c20_aliases_equivalent : forall t b a a' pre post,
 Proof. exact aliases_equivalent. Qed.
 Print Assumptions c20_aliases_equivalent.
 
+(* every option name introduced by the tool's help text is accepted by one of its option blocks *)
+Theorem c20_documented_aliases_accepted : forall t a,
+  In t gen_tools -> In a (t_documented t) -> exists b, In b (t_blocks t) /\ In a (b_aliases b).
+Proof. exact documented_accepted. Qed.
+Print Assumptions c20_documented_aliases_accepted.
+
 (* ---- invalid and incomplete command lines ---- *)
 (* an option given with fewer than its mandatory parameters: status 1 *)
 Theorem c20_incomplete_rejected : forall t b a argv i,
